@@ -126,6 +126,13 @@ Proof.
   - apply gen_cast_rc. - apply gen_cast_slice_rc. - apply gen_cast_arc. - apply gen_cast_slice_arc.
 Qed.
 
+Theorem gen_try_iff k ENV A B c : wf_cont k A c -> gen_pre k A c ->
+  ((exists c', gen_try k ENV A B c = Ret (Ok c')) <-> cast_ok k A B c).
+Proof.
+  intros Hwf Hpre. rewrite (gen_try_refines k ENV A B c Hpre).
+  rewrite <- (AllocProofs.cast_iff k A B c Hwf). split; intros [c' H]; exists c'; [inversion H; reflexivity | rewrite H; reflexivity].
+Qed.
+
 Lemma err_gives_input_back k A B c e c0 : try_cast_cont k A B c = Err (e, c0) -> c0 = c.
 Proof.
   destruct k; cbn [try_cast_cont]; unfold try_cast_single, try_cast_slice_cont, try_cast_vec;
@@ -238,3 +245,28 @@ Theorem gen_try_zeroed_total E T n :
 Proof.
   rewrite gen_try_zeroed_box, gen_try_zeroed_slice_box, gen_try_zeroed_vec. repeat split; eexists; reflexivity.
 Qed.
+
+Theorem gen_box_bytes_all ENV T c b :
+  Gen.Alloc.box_bytes_of_sized ENV T c = Ret (box_bytes_of_sized T c) /\
+  Gen.Alloc.box_bytes_of_slice ENV T c = Ret (box_bytes_of_slice T c) /\
+  Gen.Alloc.try_from_box_bytes_sized ENV T b = Ret (try_from_box_bytes_sized T b) /\
+  Gen.Alloc.try_from_box_bytes_slice ENV T b = Ret (try_from_box_bytes_slice T b) /\
+  Gen.Alloc.box_bytes_drop ENV b = Ret (match bb_drop b with Some l => Some (bb_ptr b, l) | None => None end).
+Proof.
+  exact (conj (gen_box_bytes_of_sized ENV T c) (conj (gen_box_bytes_of_slice ENV T c)
+        (conj (gen_try_from_box_bytes_sized ENV T b) (conj (gen_try_from_box_bytes_slice ENV T b) (gen_box_bytes_drop ENV b))))).
+Qed.
+Theorem gen_box_bytes_drop_exact ENV b :
+  Gen.Alloc.box_bytes_drop ENV b = Ret (if l_size (bb_layout b) =? 0 then None else Some (bb_ptr b, bb_layout b)).
+Proof. rewrite gen_box_bytes_drop. unfold bb_drop. destruct (l_size (bb_layout b) =? 0); reflexivity. Qed.
+
+Theorem gen_zeroed_all E T n :
+  Gen.Alloc.try_zeroed_box E T = Ret (zres_value E (try_zeroed_box T (alloc_ok E (mkLayout (sz T) (al T))))) /\
+  Gen.Alloc.try_zeroed_slice_box E T n = Ret (zres_value E (try_zeroed_slice_box T n (slice_alloc_ok E T n))) /\
+  Gen.Alloc.try_zeroed_vec E T n = Ret (zres_value E (try_zeroed_vec T n (slice_alloc_ok E T n))).
+Proof. exact (conj (gen_try_zeroed_box E T) (conj (gen_try_zeroed_slice_box E T n) (gen_try_zeroed_vec E T n))). Qed.
+Theorem gen_zeroed_unwrap_all E T n :
+  Gen.Alloc.zeroed_box E T = (r <- Gen.Alloc.try_zeroed_box E T ;; unwrap_unit r) /\
+  Gen.Alloc.zeroed_slice_box E T n = (r <- Gen.Alloc.try_zeroed_slice_box E T n ;; unwrap_unit r) /\
+  Gen.Alloc.zeroed_vec E T n = (r <- Gen.Alloc.try_zeroed_vec E T n ;; unwrap_unit r).
+Proof. exact (conj (gen_zeroed_box E T) (conj (gen_zeroed_slice_box E T n) (gen_zeroed_vec E T n))). Qed.
